@@ -1,30 +1,11 @@
 // Shared Kani support for harnesses inside grin_chain.
 use crate::core::core::hash::{Hash, ZERO_HASH};
 use crate::core::core::{BlockHeader, HeaderVersion};
-use crate::core::global::ChainTypes;
 use crate::core::pow::{Difficulty, Proof, ProofOfWork};
 use chrono::prelude::{DateTime, Utc};
-use keychain::BlindingFactor;
+use crate::keychain::BlindingFactor;
 
-pub fn stub_format(_args: core::fmt::Arguments<'_>) -> String {
-	String::new()
-}
-pub static mut CHAIN_TYPE_IDX: u8 = 0;
-pub fn init_globals() {
-	let i: u8 = kani::any();
-	kani::assume(i < 4);
-	unsafe {
-		CHAIN_TYPE_IDX = i;
-	}
-}
-pub fn stub_get_chain_type() -> ChainTypes {
-	match unsafe { CHAIN_TYPE_IDX } {
-		0 => ChainTypes::AutomatedTesting,
-		1 => ChainTypes::UserTesting,
-		2 => ChainTypes::Testnet,
-		_ => ChainTypes::Mainnet,
-	}
-}
+pub use crate::core::verif_kani_support::{init_globals, stub_format, stub_get_chain_type, stub_is_nrd_enabled, CHAIN_TYPE_IDX};
 /// constant digest: identity of the header is irrelevant to the contracts that use this
 pub fn stub_finalize(_w: crate::core::core::hash::HashWriter, output: &mut [u8]) {
 	if output.len() == 32 {
@@ -42,7 +23,7 @@ pub fn header_with(height: u64, total_difficulty: u64) -> BlockHeader {
 		output_root: ZERO_HASH,
 		range_proof_root: ZERO_HASH,
 		kernel_root: ZERO_HASH,
-		total_kernel_offset: BlindingFactor::zero(),
+		total_kernel_offset: unsafe { core::mem::zeroed::<BlindingFactor>() },
 		output_mmr_size: 0,
 		kernel_mmr_size: 0,
 		pow: ProofOfWork {
@@ -53,3 +34,5 @@ pub fn header_with(height: u64, total_difficulty: u64) -> BlockHeader {
 		},
 	}
 }
+
+pub use crate::core::verif_kani_support::stub_blake_update;
